@@ -278,6 +278,8 @@ func (c *Ctx) ruleRebuilt(rule string) {
 					c.R.Ok(rule, k, pos, "read of an unexported field of a described type", "under a branch that established "+guardAt(b, fa.X)+" != nil: the value was built by a constructor, which fills these fields together")
 				case looksAtUnfilled(b, fa.X) != "":
 					c.R.Ok(rule, k, pos, "read of an unexported field of a described type", "the function tests "+looksAtUnfilled(b, fa.X)+" against nil on the way here (either outcome): it distinguishes the unfilled case itself")
+				case testedWhereRead(ld):
+					c.R.Ok(rule, k, pos, "read of an unexported field of a described type", "the value read is compared with nil at once and the block branches on the outcome (`v := o.field; if v == nil { v = fill() }`): the function distinguishes the unfilled case itself")
 				case handsOutWithVerdict(fn, ld):
 					c.R.Ok(rule, k, pos, "read of an unexported field of a described type", "the function hands the value out together with the outcome of its comparison with nil (a result of every return that carries the value): it distinguishes the unfilled case itself")
 				case guardedByCallers(fn, 0):
@@ -290,6 +292,27 @@ func (c *Ctx) ruleRebuilt(rule string) {
 		}
 	}
 	c.R.Note("%s: %d described struct types with unexported nilable fields; %d reads examined", rule, len(described), n)
+}
+
+// testedWhereRead: the loaded value is compared with nil and the block it was loaded in branches on that comparison.
+func testedWhereRead(ld *ssa.UnOp) bool {
+	refs := ld.Referrers()
+	b := ld.Block()
+	if refs == nil || len(b.Instrs) == 0 {
+		return false
+	}
+	ifi, ok := b.Instrs[len(b.Instrs)-1].(*ssa.If)
+	if !ok {
+		return false
+	}
+	for _, r := range *refs {
+		if bin, ok := r.(*ssa.BinOp); ok {
+			if v, _, isNil := core.NilCmp(bin); isNil && v == ssa.Value(ld) && ifi.Cond == ssa.Value(bin) {
+				return true
+			}
+		}
+	}
+	return false
 }
 
 // handsOutWithVerdict: the loaded value is used only in comparisons with nil and as a result of returns that also
